@@ -3,7 +3,7 @@
 import ast, re, sys, os, subprocess
 HERE = os.path.dirname(os.path.dirname(os.path.abspath(__file__)))
 cur_path = os.path.join(HERE, 'translate', 'tables.py')
-subprocess.run(['git', '-C', HERE, 'checkout', 'translate/tables.py'])
+pass  # (the lead keeps tables.py as it is; new definitions are appended)
 cur = open(cur_path).read()
 
 def toplevel(src):
